@@ -180,6 +180,9 @@ func (p *c07) inputs(tier string, seed int64, idx int) []string {
 		deep := strings.Repeat("x:a {", 10000)
 		ins = append(ins, deep, deep+strings.Repeat("}", 10000), deep+strings.Repeat("}", 9999), deep+strings.Repeat("}", 10001),
 			strings.Repeat("a ", 5000)+";", "a \""+strings.Repeat("x\n   ", 5000)+"\";", strings.Repeat("/* c */", 3000), strings.Repeat("a \"b\" + ", 2000)+"\"c\";")
+		// (three million pieces of one concatenated argument: 9 MB, complete and cut off)
+		chain := "x:a " + strings.Repeat("''+", 3000000)
+		ins = append(ins, chain+"'';", chain, "x:a "+strings.Repeat("\"b\" + ", 10001)+"\"c\";", "x:a "+strings.Repeat("\"b\" + ", 9990)+"\"c\";")
 		return append(ins, c07AfterLastToken()...)
 	}
 	idx--
